@@ -433,6 +433,8 @@ func parseModSpec(s string) (ModSpec, error) {
 		return ModSpec{Kind: w, Expr: e, Text: s}, nil
 	case "key":
 		return ModSpec{Kind: "key", Name: r, Text: s}, nil
+	case "captured":
+		return ModSpec{Kind: "captured", Name: strings.TrimSpace(r), Text: s}, nil
 	case "mapkey":
 		// mapkey m[k]
 		i := strings.IndexByte(r, '[')
